@@ -43,26 +43,29 @@ def _operand_text(e):
     return f'({expr_text(e)})' if e[0] == 'bin' else expr_text(e)
 
 
-def expr_eval(e, row, variables=None):
-    """Row fields are the local variables; `variables` are additional variables; an unknown name is null."""
+def expr_eval(e, row, variables=None, globs=None):
+    """Name lookup, innermost first: a field the row has (even when its value is null), then the `variables` argument,
+    then the globals of the calling script; an unknown name is null."""
     kind = e[0]
     if kind == 'var':
         if e[1] in row:
             return row[e[1]]
         if variables is not None and e[1] in variables:
             return variables[e[1]]
+        if globs is not None and e[1] in globs:
+            return globs[e[1]]
         return None
     if kind == 'num':
         return e[1]
     if kind == 'null':
         return None
     op = e[1]
-    left = expr_eval(e[2], row, variables)
+    left = expr_eval(e[2], row, variables, globs)
     if op == '||':
-        return left if rv.truthy(left) else expr_eval(e[3], row, variables)
+        return left if rv.truthy(left) else expr_eval(e[3], row, variables, globs)
     if op == '&&':
-        return left if not rv.truthy(left) else expr_eval(e[3], row, variables)
-    right = expr_eval(e[3], row, variables)
+        return left if not rv.truthy(left) else expr_eval(e[3], row, variables, globs)
+    right = expr_eval(e[3], row, variables, globs)
     if op in ('==', '!=', '<', '<=', '>', '>='):
         c = rv.compare(left, right)
         return {'==': c == 0, '!=': c != 0, '<': c < 0, '<=': c <= 0, '>': c > 0, '>=': c >= 0}[op]
@@ -86,14 +89,14 @@ def expr_eval(e, row, variables=None):
 # filter / calculated field / sort
 # ---------------------------------------------------------------------------------------------------------------------
 
-def ref_filter(rows, e, variables=None):
+def ref_filter(rows, e, variables=None, globs=None):
     """Exactly the rows whose expression value is truthy, in order."""
-    return [row for row in rows if rv.truthy(expr_eval(e, row, variables))]
+    return [row for row in rows if rv.truthy(expr_eval(e, row, variables, globs))]
 
 
-def ref_calculated(rows, name, e, variables=None):
+def ref_calculated(rows, name, e, variables=None, globs=None):
     """Every row with field `name` set to the expression value computed on that row."""
-    return [{**row, name: expr_eval(e, row, variables)} for row in rows]
+    return [{**row, name: expr_eval(e, row, variables, globs)} for row in rows]
 
 
 def row_compare(sorts, row1, row2):
@@ -269,15 +272,15 @@ def join_names(left_rows, right_rows):
     return mapping
 
 
-def ref_join(left_rows, right_rows, left_e, right_e=None, variables=None):
+def ref_join(left_rows, right_rows, left_e, right_e=None, variables=None, globs=None):
     """Returns one block per left row, in order: ('matched', [joined rows in right-row order]) or
     ('unmatched', [the left row]). Two key values are equal when the reference comparison says 0."""
     right_e = left_e if right_e is None else right_e
     mapping = join_names(left_rows, right_rows)
-    right_keys = [expr_eval(right_e, row, variables) for row in right_rows]
+    right_keys = [expr_eval(right_e, row, variables, globs) for row in right_rows]
     blocks = []
     for left in left_rows:
-        key = expr_eval(left_e, left, variables)
+        key = expr_eval(left_e, left, variables, globs)
         partners = [row for row, rk in zip(right_rows, right_keys) if rv.compare(key, rk) == 0]
         if partners:
             blocks.append(('matched', [{**left, **{mapping[n]: v for n, v in row.items()}} for row in partners]))
